@@ -31,6 +31,9 @@ func genC18(seed int64, n int) *c18Prog {
 	for len(p.stmts) < n {
 		last := len(p.stmts) == n-1
 		k := rng.Intn(12)
+		if rng.Intn(3) == 0 {
+			k = 13 + rng.Intn(3)
+		}
 		if last && rng.Intn(2) == 0 {
 			k = 12
 		}
@@ -108,6 +111,26 @@ func genC18(seed int64, n int) *c18Prog {
 			} else {
 				p.stmts = append(p.stmts, fmt.Sprintf("%s.v += %s", ptrs[rng.Intn(len(ptrs))], y))
 			}
+		case 13, 14, 15:
+			// a block that declares locals of a particular type (local slots restart with every Eval)
+			if len(p.stmts) == 0 || !strings.HasPrefix(p.stmts[0], "acc :=") {
+				if len(p.stmts) > 0 {
+					continue
+				}
+				p.stmts = append(p.stmts, "acc := in0 + 1")
+				p.globals = append(p.globals, "acc")
+				ints = append(ints, "acc")
+				continue
+			}
+			x = "acc"
+			switch k {
+			case 13:
+				p.stmts = append(p.stmts, fmt.Sprintf("for fl := 0.5; fl < 2; fl++ {\n\thalf := fl / 2\n\tif half > 0.5 {\n\t\t%s++\n\t}\n}", x))
+			case 14:
+				p.stmts = append(p.stmts, fmt.Sprintf("for n := 0; n < 3; n++ {\n\tq := n / 2\n\t%s += q\n}", x))
+			default:
+				p.stmts = append(p.stmts, fmt.Sprintf("if %s != %s {\n\tvar bb byte = 250\n\tbb += 10\n\t%s += int(bb)\n} else {\n\ts := \"ab\"\n\t%s += len(s)\n}", x, y, x, x))
+			}
 		case 11:
 			v := newName("s")
 			p.stmts = append(p.stmts, fmt.Sprintf("%s := []int{%s, %s}", v, x, y))
@@ -122,7 +145,7 @@ func genC18(seed int64, n int) *c18Prog {
 func checkC18(tier string, seed int64) int {
 	c := newCtx("C18", tier, seed, "translation_validation", nil)
 	defer c.Close()
-	n, nprogs := 4, 120
+	n, nprogs := 4, 400
 	if tier == "thorough" {
 		n, nprogs = 6, 1000
 	}
@@ -243,7 +266,7 @@ func checkC18(tier string, seed int64) int {
 	agg.Into(c, "")
 	c.Cov("cuts_explored", cuts)
 	c.Cov("paths_compared", st.compared)
-	c.Cov("rule", fmt.Sprintf("seeded top-level sequences of 2..%d statements (short declarations, typed var declarations, assignments, compound assignments, if/else, for, import + print, function/type/method-free struct definitions, calls, struct field updates, slice literals, a final expression) with two symbolic pre-set globals; for EVERY non-trivial way of cutting the sequence into consecutive Eval calls on one VM (shared WithEvalImports map) the output, the last Eval's values (type, number, rendering) and all declared globals are compared with one Eval of the whole text", n))
+	c.Cov("rule", fmt.Sprintf("seeded top-level sequences of 2..%d statements (short declarations, typed var declarations, assignments, compound assignments, if/else, for (also with block-local float/int/byte/string variables), import + print, function/type/method-free struct definitions, calls, struct field updates, slice literals, a final expression) with two symbolic pre-set globals; for EVERY non-trivial way of cutting the sequence into consecutive Eval calls on one VM (shared WithEvalImports map) the output, the last Eval's values (type, number, rendering) and all declared globals are compared with one Eval of the whole text", n))
 	c.Assumption("both sides are goatlang's real Eval run in the engine; inputs enter through vm.Set as int32 values")
 	return c.Finish(false)
 }
